@@ -528,6 +528,13 @@ class ExprMixin:
                 if isinstance(b, Sc):
                     self.oblige(st, "fsafe", node, to_real(b) != 0, "array divided by zero scalar")
             res = self.elementwise(st, node, f, [a, b], rk)
+            if isinstance(op, ast.Pow) and isinstance(a, Sc) and b_arr:
+                # sound sign facts about (scalar base) ** array, for every element (the scalar case states them per call)
+                k = fresh("k", INT)
+                ra = st.obj(res).a
+                n = self.length_of(st, res)
+                st.assume(qall([k], z3.Implies(z3.And(k >= 0, k < n, to_real(a) > 0), z3.Select(ra, k) > 0), pats=[z3.Select(ra, k)]))
+                st.assume(qall([k], z3.Implies(z3.And(k >= 0, k < n, to_real(a) >= 0), z3.Select(ra, k) >= 0), pats=[z3.Select(ra, k)]))
             if isinstance(op, ast.Div) and isinstance(b, Sc) and a_arr:
                 y = to_real(b)
                 k = fresh("k", INT)
